@@ -246,11 +246,11 @@ public:
   vTy& getVec() { return bufdata; }
 
   //! Get a pointer to the underlying data of the deserialize buffer
-  void* linearData() { return &bufdata[0]; }
+  void* linearData() { return bufdata.data(); }
 
   //! Get a pointer to the remaining data of the deserialize buffer
   //! (as determined by offset)
-  const uint8_t* r_linearData() const { return &bufdata[offset]; }
+  const uint8_t* r_linearData() const { return bufdata.data() + offset; }
   //! Get the remaining size of the deserialize buffer (as determined
   //! by offset)
   size_t r_size() const { return bufdata.size() - offset; }
